@@ -28,7 +28,7 @@ type c19Mon struct {
 func attachC19(m *Mon, every int) {
 	c := &c19Mon{m: m, every: every}
 	m.extra = append(m.extra, func(sc *StepCtx) {
-		if sc.Idx >= 0 && (sc.Idx+1)%c.every == 0 {
+		if sc.Idx >= 0 && (sc.Idx+1)%everyFor(sc, c.every, 3) == 0 {
 			c.scenario(sc)
 		}
 	})
